@@ -414,6 +414,17 @@ namespace chaiscript {
         assert(this->children.size() == 2);
       }
 
+      /// A registered operator= (operator+= ...) usually returns a C++ reference to its left-hand side.
+      /// Boxed, that is a bare reference; when the assignment is the value of a function it would
+      /// outlive the local it points to. The left-hand side itself shares ownership of the object.
+      static Boxed_Value result_of_assignment(Boxed_Value t_result, const Boxed_Value &t_lhs) {
+        if (t_result.is_ref() && !t_result.is_null() && t_result.get_const_ptr() == t_lhs.get_const_ptr()
+            && Boxed_Value::type_match(t_result, t_lhs)) {
+          return t_lhs;
+        }
+        return t_result;
+      }
+
       Boxed_Value eval_internal(const chaiscript::detail::Dispatch_State &t_ss) const override {
         chaiscript::eval::detail::Function_Push_Pop fpp(t_ss);
 
@@ -479,7 +490,7 @@ namespace chaiscript {
             }
 
             try {
-              return t_ss->call_function(this->text, m_loc, Function_Params{params}, t_ss.conversions());
+              return result_of_assignment(t_ss->call_function(this->text, m_loc, Function_Params{params}, t_ss.conversions()), params[0]);
             } catch (const exception::dispatch_error &e) {
               throw exception::eval_error("Unable to find appropriate'" + this->text + "' operator.", e.parameters, e.functions, false, *t_ss);
             }
@@ -499,7 +510,7 @@ namespace chaiscript {
           }
         } else {
           try {
-            return t_ss->call_function(this->text, m_loc, Function_Params{params}, t_ss.conversions());
+            return result_of_assignment(t_ss->call_function(this->text, m_loc, Function_Params{params}, t_ss.conversions()), params[0]);
           } catch (const exception::dispatch_error &e) {
             throw exception::eval_error("Unable to find appropriate'" + this->text + "' operator.", e.parameters, e.functions, false, *t_ss);
           }
